@@ -44,7 +44,7 @@ WIDTHS = [1, 1.5, 2, 2.7, 3, 5]
 # documented support of each kernel as a multiple of its width (used only to size the signals)
 SUPPORT = {"Gaussian": 3.0, "Exponential": 3.0, "Uniform": 2.0, "Triangular": 1.5, "Epanechnikov": 1.5,
            "Spheric": 1.0, "Cubic": 1.0}
-SIGNALS = ["random", "integer", "constant", "monotone", "impulse", "nan", "constant_nan"]
+SIGNALS = ["random", "integer", "constant", "monotone", "impulse", "nan", "constant_nan", "pyint", "pyint_constant"]
 VIAS_KERNEL = ["operate", "operate_inplace", "seq_x", "seq_y", "seq_z", "seq_xyz", "seq_feature"]
 REL = 1e-9
 
@@ -78,7 +78,8 @@ def floors(tier):
                         "via_operate": 1000, "via_operate_inplace": 200, "via_seq_x": 100, "via_seq_y": 100, "via_seq_z": 100,
                         "via_seq_xyz": 100, "via_seq_feature": 100, "via_smooth": 100, "int_kernel": 20,
                         "kernel_Gaussian": 100, "kernel_Uniform": 100, "kernel_Triangular": 100, "kernel_Exponential": 100,
-                        "kernel_Epanechnikov": 100, "kernel_Spheric": 100, "kernel_Cubic": 100, "kernel_Dirac": 20},
+                        "kernel_Epanechnikov": 100, "kernel_Spheric": 100, "kernel_Cubic": 100, "kernel_Dirac": 20,
+                        "signal_of_python_ints": 1000, "track_of_1000+_observations": 12},
             "distinct_nontrivial": 5000 if q else 100000}
 
 
@@ -103,6 +104,11 @@ def _signal(rng, kind, n):
         return [rng.uniform(-1000.0, 1000.0) for _ in range(n)]
     if kind == "integer":
         return [float(rng.randint(-5, 5)) for _ in range(n)]
+    if kind == "pyint":
+        # values held as Python ints (a count, an index, coordinates typed without a decimal point)
+        return [rng.randint(-5, 20) for _ in range(n)]
+    if kind == "pyint_constant":
+        return [rng.choice([7, 1, 0, -3])] * n
     if kind == "constant":
         c = rng.choice([0.0, 1.0, -3.5, 1e6, 0.1, rng.uniform(-1000, 1000)])
         return [c] * n
@@ -223,6 +229,10 @@ def cases(chunk):
             via = rng.choice(VIAS_KERNEL)
             sk = rng.choice(SIGNALS)
             n = _window_len(kspec) + rng.choice([0, 0, 1, 2, 5, 10])
+            if _ % 25 == 3:
+                # larger scale: tracks of a thousand observations and more
+                n = rng.choice([1000, 1024, 1500, 2500])
+                sk = rng.choice(["random", "monotone", "nan", "pyint", "constant"])
             yield {"kind": "filter", "kernel": kspec, "via": via, "sigkind": sk, "signals": _signals_for(rng, via, sk, n)}
     elif kind == "smooth":
         for i in range(chunk["n"]):
@@ -239,7 +249,8 @@ NAN = float("nan")
 
 
 def _dec(sig):
-    return [NAN if (v is None or v == "NaN") else float(v) for v in sig]
+    return [NAN if (v is None or v == "NaN") else v if (isinstance(v, int) and not isinstance(v, bool)) else float(v)
+            for v in sig]
 
 
 _DECOYS = []
@@ -472,8 +483,12 @@ def run_case(case, ctx):
     via = case["via"]
     sets = [{"a": s} for s in case["multi"]] if "multi" in case else [case["signals"]]
     cls = set(["via_" + via, case["sigkind"].replace("constant_nan", "nan") + "_signal"])
-    if case["sigkind"] == "constant_nan":
+    if case["sigkind"] in ("constant_nan", "pyint_constant"):
         cls.add("constant_signal")
+    if case["sigkind"].startswith("pyint"):
+        cls.add("signal_of_python_ints")
+    if "signals" in case and len(next(iter(case["signals"].values()))) >= 1000:
+        cls.add("track_of_1000+_observations")
     if "weights" in kspec:
         w = kspec["weights"]
         cls.add("symmetric_list" if w == w[::-1] else "asymmetric_list")
